@@ -69,8 +69,9 @@ pub fn run(a: &Args) {
         // one shape with very many threads: with the thread-name fail point every one of them is a reported failure, and the
         // soft-error stream grows far beyond a few KiB - it must stay complete, well-formed JSON
         let crowd = shape == 2;
-        let nth = if shape == 0 { 2 } else if crowd { 130 } else { rng.below(6) as usize };
-        let threads: Vec<ThreadSpec> = (0..nth).map(|i| ThreadSpec { kind: if !crowd && (shape > 0 || i == 1) && rng.chance(1, 3) { Kind::NullSp } else { Kind::Block }, sp_off: 0x800, pages: 2, name: Some(format!("w{i}").into_bytes()), at: None }).collect();
+        let held_all = shape == 3;
+        let nth = if shape == 0 || held_all { 2 } else if crowd { 130 } else { rng.below(6) as usize };
+        let threads: Vec<ThreadSpec> = (0..nth).map(|i| ThreadSpec { kind: if !crowd && !held_all && (shape > 0 || i == 1) && rng.chance(1, 3) { Kind::NullSp } else { Kind::Block }, sp_off: 0x800, pages: 2, name: Some(format!("w{i}").into_bytes()), at: None }).collect();
         // the linker stream can fail because its data cannot be read, or because a loaded object's name is not valid UTF-8
         // (a different error value travels into the soft-error list)
         let dso_fails = shape > 0 && rng.chance(1, 2);
@@ -86,6 +87,15 @@ pub fn run(a: &Args) {
             unsafe { libc::ptrace(libc::PTRACE_SEIZE, target.pid, 0, 0); libc::ptrace(libc::PTRACE_INTERRUPT, target.pid, 0, 0); let mut st = 0; libc::waitpid(target.pid, &mut st, libc::__WALL); }
             out.count("shape.main_thread_held_by_another_tracer");
         }
+        // ... and the extreme of it: EVERY thread of the target is held by another tracer, so that no thread at all can be
+        // attached: the dump must still succeed, with an empty thread list and the failures reported
+        if held_all {
+            for tid in std::iter::once(target.pid).chain(target.tids.iter().copied()) {
+                unsafe { libc::ptrace(libc::PTRACE_SEIZE, tid, 0, 0); libc::ptrace(libc::PTRACE_INTERRUPT, tid, 0, 0); let mut st = 0; libc::waitpid(tid, &mut st, libc::__WALL); }
+            }
+            out.count("shape.every_thread_held_by_another_tracer");
+        }
+        let held_main = held_main || held_all;
         let skip_unref = shape > 0 && rng.chance(1, 3);
         let chain_base = target.fact_hex("chain");
         let configure = |w: &mut MinidumpWriter| {
@@ -121,7 +131,7 @@ pub fn run(a: &Args) {
             for t in &world.threads {
                 let idx = target.tids.iter().position(|x| *x == t.tid);
                 let nullsp = idx.map(|i| scen.threads[i].kind == Kind::NullSp).unwrap_or(false);
-                line.u(if nullsp { 1 } else if held_main && t.tid == target.pid { 2 } else { 0 });
+                line.u(if nullsp { 1 } else if held_all || (held_main && t.tid == target.pid) { 2 } else { 0 });
             }
             let mut r = Line::bare();
             let img = match res { Ok(Ok(i)) => i, Ok(Err(e)) => { out.case(line.s(), &format!("!dump failed under fail points {mask:05b}: {}", e.replace('\n', " ").chars().take(200).collect::<String>()), true); continue; }
@@ -149,8 +159,9 @@ pub fn run(a: &Args) {
             }
             out.case(l.s(), r.s(), mask != 0);
         }
+        if held_all { for tid in target.tids.iter() { unsafe { libc::ptrace(libc::PTRACE_DETACH, *tid, 0, 0); } } }
         if held_main { unsafe { libc::ptrace(libc::PTRACE_DETACH, target.pid, 0, 0); } }
     }
     out.assumptions.push("JSON well-formedness is observed by parsing with serde_json; tag numbering is shared between harness/src/c11.rs and SoftErr.v".into());
-    out.finish(&a.out, "live targets (0..5 extra threads, null-SP helpers, optional skip-unreferenced without principal mapping, optional unreadable linker data through direct auxv; one shape whose main thread is held in a trace stop by another tracer, so that stopping the process times out) x fail-point subsets (all 32 on the first shape, a sample on the others; all 32 on every shape in the thorough tier): dump must succeed, the soft-error JSON reduced to variant tags must equal the model's tree, every stream not owned by a failed step must equal the no-fault dump of the same target; non-trivial = at least one fail point enabled");
+    out.finish(&a.out, "live targets (0..5 extra threads, null-SP helpers, optional skip-unreferenced without principal mapping, optional unreadable linker data through direct auxv; one shape whose main thread is held in a trace stop by another tracer, so that stopping the process times out; one shape in which EVERY thread is held so that none can be attached) x fail-point subsets (all 32 on the first shape, a sample on the others; all 32 on every shape in the thorough tier): dump must succeed, the soft-error JSON reduced to variant tags must equal the model's tree, every stream not owned by a failed step must equal the no-fault dump of the same target; non-trivial = at least one fail point enabled");
 }
